@@ -224,6 +224,8 @@ pub fn inputs(ctx: &Ctx) -> Vec<Case> {
     if !words.is_empty() {
         v.push(Case { kv: gen::assign(words[..300].to_vec(), 1, &mut rng), set: false, family: "corpus-prefix", index: 0 });
         v.push(Case { kv: gen::assign(words[..1000].to_vec(), 0, &mut rng), set: true, family: "corpus-prefix", index: 1 });
+        // an output of several hundred KB (a builder that stages its output in large blocks only hands them over beyond that size)
+        v.push(Case { kv: gen::assign(words[..words.len().min(4500)].to_vec(), 5, &mut rng), set: false, family: "corpus-prefix", index: 3 });
         if !ctx.quick() {
             v.push(Case { kv: gen::assign(words.clone(), 5, &mut rng), set: false, family: "corpus", index: 2 });
         }
